@@ -66,3 +66,6 @@ CFG["level_extra"] = ('single marker faults (C20_fault_burst_no_wrong_time, C20_
                       'invalid word are failure/resynchronisation cases (failure theorems + differential); the clause is about ONE '
                       'fault: two corrupted markers on either side of an edge DO give a wrong time '
                       '(Example C20_two_faults_wrong_time, reproduced on the real binary, corpus/C20/marker_faults.case line 1).')
+
+# a run with fewer cases than half of what the quick tier generates today would be a (partly) vacuous differential
+CFG["min_cases"] = 217
